@@ -139,6 +139,8 @@ def make_classes(rec):
         def send_signal(self, sig):
             if self.returncode is not None:
                 raise ProcessLookupError()
+            if int(sig) == int(signal.SIGTERM) and self.tid % 3 == 1:
+                return          # this task's script traps SIGTERM: only SIGKILL ends it
             rec.log("k:%s" % self.tid)
             self.do_exit(-int(sig))
 
